@@ -63,26 +63,34 @@ harnesses! {
         drop((c, m, tx, rx));
         end_ledger();
     }
-    // ... and on everything it receives
-    #[unwind(6)] fn cloexec_received() {
-        setup(64);
-        env::set_block_is_violation(true);
-        let (s_fd, r_fd) = raw_pair();
-        let rx = rx_from_fd(r_fd);
-        let (a, b) = raw_pair();
-        let ded = raw_pair();
-        let d: [u8; 25] = kani::any();
-        assert!(inject(s_fd, Some(25), &d[..24], &[a, ded.1]) > 0);
-        assert!(inject(ded.0, None, &d[24..], &[]) > 0);
-        raw_close(a);
-        raw_close(ded.0);
-        raw_close(ded.1);
-        let (g, ch, _) = rx.recv().unwrap();
-        assert!(g.len() == 25 && ch.len() == 1);
-        assert!(!env::no_cloexec(), "C11: a received descriptor is inherited by child processes (no close-on-exec)");
-        drop((g, ch, rx));
-        raw_close(b);
-        raw_close(s_fd);
-        end_ledger();
-    }
+    // ... and on everything it receives, whichever receive variant is used
+    #[unwind(6)] fn cloexec_received() { cloexec_recv(0) }
+    #[unwind(6)] fn cloexec_received_try() { cloexec_recv(1) }
+    #[unwind(8)] fn cloexec_received_timeout() { cloexec_recv(2) }
+}
+
+fn cloexec_recv(mode: u8) {
+    setup(64);
+    env::set_block_is_violation(true);
+    let (s_fd, r_fd) = raw_pair();
+    let rx = rx_from_fd(r_fd);
+    let (a, b) = raw_pair();
+    let ded = raw_pair();
+    let d: [u8; 25] = kani::any();
+    assert!(inject(s_fd, Some(25), &d[..24], &[a, ded.1]) > 0);
+    assert!(inject(ded.0, None, &d[24..], &[]) > 0);
+    raw_close(a);
+    raw_close(ded.0);
+    raw_close(ded.1);
+    let (g, ch, _) = match mode {
+        0 => rx.recv().unwrap(),
+        1 => rx.try_recv().unwrap(),
+        _ => rx.try_recv_timeout(std::time::Duration::from_millis(5)).unwrap(),
+    };
+    assert!(g.len() == 25 && ch.len() == 1);
+    assert!(!env::no_cloexec(), "C11: a received descriptor is inherited by child processes (no close-on-exec)");
+    drop((g, ch, rx));
+    raw_close(b);
+    raw_close(s_fd);
+    end_ledger();
 }
